@@ -45,6 +45,8 @@ def to_js(e):
                 raise Unsupported("multi-index subscript")
             idx = idx[0]
         return ["sub", to_js(e.aggregate), to_js(idx)]
+    if isinstance(e, p.Lookup):
+        return ["attr", to_js(e.aggregate), e.name]
     if isinstance(e, p.Comparison):
         return ["cmp", e.operator, to_js(e.left), to_js(e.right)]
     if isinstance(e, p.LogicalNot):
@@ -99,6 +101,8 @@ def from_js(j):
         return p.Call(p.Variable(j[1]), args)
     if k == "sub":
         return p.Subscript(from_js(j[1]), from_js(j[2]))
+    if k == "attr":
+        return p.Lookup(from_js(j[1]), j[2])
     if k == "cmp":
         return p.Comparison(from_js(j[2]), j[1], from_js(j[3]))
     if k == "not":
